@@ -3,6 +3,7 @@ package rules
 import (
 	"fmt"
 	"go/token"
+	"sort"
 	"strings"
 
 	"golang.org/x/tools/go/ssa"
@@ -19,13 +20,15 @@ func c16(c *eng.Ctx, r *eng.Report) {
 		"R16.1 on the verification and qualification paths a proof is left-padded to 80 bytes before it is decoded or its lottery output is read, and both padding helpers right-align the shortened proof (`copy(buf[80-len(pi):], pi)`) and only skip proofs that are already full length; " +
 		"R16.2/R16.5 neither proof generation nor verification consults randomness, the clock, a cache or any package-level mutable state, so proving is deterministic and the verdict is a function of (key, proof, message); " +
 		"R16.3 ECVRFVerify returns true only as the comparison of the recomputed challenge with the proof's c, after the proof decoded without error, and the message and key passed to hashToCurve are the function's own arguments; " +
-		"R16.4 the quality number is floor(ratio/step)+1 with the stake ratio clamped to 1, and qualification is `valueRatio < stakeRatio`. " +
+		"R16.4 the quality number is floor(ratio/step)+1 with the stake ratio clamped to 1, and qualification is `valueRatio < stakeRatio`; " +
+		"R16.6 decodeProof cuts the proof into gamma|c|s with plain copies that tile bytes [0,80) exactly and writes nothing else into those buffers (no bit of the proof is masked away before verification). " +
 		"Not decided: uniqueness/soundness of the VRF, bit-flip rejection, the numeric range of qn under float rounding."
 	r.Assume = []string{"edwards25519 group arithmetic and SHA-512 are correct"}
 	c16Padding(c, r)
 	c16Purity(c, r)
 	c16Verify(c, r)
 	c16Qn(c, r)
+	c16Verbatim(c, r)
 }
 
 func c16Padding(c *eng.Ctx, r *eng.Report) {
@@ -197,6 +200,64 @@ func c16Verify(c *eng.Ctx, r *eng.Report) {
 		bad = append(bad, "hashToCurve is not applied to the function's own (message, public key)")
 	}
 	r.Check(len(bad) == 0, rule, "ECVRFVerify:accept-edge", c.Pos(fn.Pos()), "true only when hashPoints(H(m,pk), Gamma, U, V) equals the proof's challenge, after a successful decode", strings.Join(uniq(bad), "; "))
+}
+
+// c16Verbatim: every bit of the 80-byte proof reaches the verification
+// equation — decodeProof cuts the proof into gamma|c|s with plain copies that
+// tile [0,80) exactly and writes nothing else into those buffers.
+func c16Verbatim(c *eng.Ctx, r *eng.Report) {
+	const rule = "R16.6"
+	r.Min(rule, 1)
+	fn := c.Func(edPkg, "decodeProof")
+	if !r.Anchor(fn != nil, rule, "ed25519.decodeProof") {
+		return
+	}
+	type iv struct{ lo, hi int64 }
+	var ivs []iv
+	bufs := map[ssa.Value]bool{}
+	bad := ""
+	for _, call := range callsNamed(fn, "builtin:copy") {
+		src, ok := call.Call.Args[1].(*ssa.Slice)
+		if !ok || !isParamNamed(src.X, "pi") {
+			bad = "a copy whose source is not a slice of the proof"
+			continue
+		}
+		lo, hi := int64(0), int64(-1)
+		if src.Low != nil {
+			lo, _ = eng.ConstInt(src.Low)
+		}
+		if src.High != nil {
+			hi, _ = eng.ConstInt(src.High)
+		}
+		ivs = append(ivs, iv{lo, hi})
+		if dst, isS := call.Call.Args[0].(*ssa.Slice); isS {
+			bufs[dst.X] = true
+		}
+	}
+	sort.Slice(ivs, func(i, j int) bool { return ivs[i].lo < ivs[j].lo })
+	next := int64(0)
+	for _, v := range ivs {
+		if v.lo != next || v.hi <= v.lo {
+			bad = fmt.Sprintf("the copied slices do not tile the proof: [%d:%d] follows offset %d", v.lo, v.hi, next)
+		}
+		next = v.hi
+	}
+	if bad == "" && next != 80 {
+		bad = fmt.Sprintf("the copied slices cover the proof only up to byte %d of 80", next)
+	}
+	// nothing else is written into the decoded buffers
+	for _, b := range fn.Blocks {
+		for _, in := range b.Instrs {
+			st, ok := in.(*ssa.Store)
+			if !ok {
+				continue
+			}
+			if ia, isIA := st.Addr.(*ssa.IndexAddr); isIA && bufs[ia.X] {
+				bad = "byte " + eng.Desc(ia.Index) + " of a decoded component is overwritten with " + eng.Desc(st.Val) + " (" + c.Pos(st.Pos()) + "): that part of the proof no longer influences verification, so a proof differing only there verifies too"
+			}
+		}
+	}
+	r.Check(bad == "", rule, "decodeProof:verbatim", c.Pos(fn.Pos()), "gamma|c|s are plain copies of pi[0:32], pi[32:48], pi[48:80] and nothing else is written into them", "decodeProof: "+bad)
 }
 
 func c16Qn(c *eng.Ctx, r *eng.Report) {
